@@ -88,6 +88,7 @@ func main() {
 	rtBlocks := flag.Int("rtblocks", 30, "blocks per roothash history")
 	replay := flag.String("replay", "", "replay one case description (JSON)")
 	verbose := flag.Bool("v", false, "")
+	flag.Int64Var(&capMarginFlag, "capmargin", -1, "probe: force every non-bypass history to a total supply whose voting power is this far below CometBFT's cap, with small-stake joiners (default: knob)")
 	flag.BoolVar(&mockFlag, "mock", false, "also generate DebugMockBackend histories (SetEpoch transactions, epoch jumps); off by default: they hit debug-only failures")
 	flag.Parse()
 	if *out == "" {
@@ -262,6 +263,7 @@ func shrink(h histDesc, v *violation) *violation {
 }
 
 var vflag, mockFlag bool
+var capMarginFlag int64 = -1
 
 func logf(format string, a ...any) {
 	if vflag {
